@@ -12,6 +12,7 @@ CONSTANTS
   MaxPush = 0
   Faults = {}
   RespShapes <- NoShapes
+  Abandon = FALSE
   MaxArr = 3
   ArrMenu = {}
   MaxSilent = 14
